@@ -53,12 +53,17 @@ def random_leaf(av, rng, name="", gen=None):
 def run_real(traced, leaf_values, w=None, jit=False):
     args = rebuild_args(traced, leaf_values)
     fn = traced.fn
-    if w is not None:
-        with world(w):
+    # `uf` behaves differently in symbolic and concrete worlds: never reuse a jit/tracing cache entry across them
+    jax.clear_caches()
+    try:
+        if w is not None:
+            with world(w):
+                out = fn(*args)
+                out = jax.block_until_ready(out)
+        else:
             out = fn(*args)
-            out = jax.block_until_ready(out)
-    else:
-        out = fn(*args)
+    finally:
+        jax.clear_caches()
     leaves = [l for l in jax.tree_util.tree_leaves(out) if eqx.is_array(l)]
     return leaves
 
@@ -265,6 +270,7 @@ class ModelWorld:
         self.table = {}
         self.hits = 0
         self.misses = 0
+        self.ambiguous = 0
         for name, oi, idx, operands, result in uf_apps:
             ops = []
             for x in operands:
@@ -307,8 +313,15 @@ class ModelWorld:
                 for v in o.reshape(-1):
                     flat.append(("v", v.item()))
         res = self.fallback.apply(name, out, ops, keypos, int_mod)
+        seen = {}
         for ent_ops, oi, idx, val in self.table.get(name, []):
             if val is not None and self._match(ent_ops, flat):
+                prev = seen.get((oi, idx))
+                if prev is not None and not (abs(float(prev) - float(val)) <= 1e-6 * (1 + abs(float(val)))):
+                    # two applications whose operands differ only at rounding level but whose model values differ:
+                    # the counterexample hinges on float rounding, it is not a reproducible violation
+                    self.ambiguous += 1
+                seen[(oi, idx)] = val
                 res[oi][idx] = val
                 self.hits += 1
         return res
@@ -361,4 +374,7 @@ def replay_outputs(traced, syms, res, uf_apps=(), oracle=None, rtol=1e-3, atol=1
             diffs.append({"output": name, "real_code": got.reshape(-1)[:8].tolist(), "expected_by_property": want.reshape(-1)[:8].tolist()})
     info = {"inputs": {n: np.asarray(real_to_float(v) if hasattr(v, "dtype") else v).reshape(-1)[:12].tolist() for n, v in zip(traced.in_names, vals)},
             "uf_table_hits": w.hits, "differences": diffs, "function": traced.label}
+    if w.ambiguous:
+        info["rounding_level_ambiguity"] = w.ambiguous
+        return False, info
     return bool(diffs), info
